@@ -396,3 +396,8 @@ def run(ctx, R):
              conv, func=hf)
     R.count('R9.5', n, 3)
     R.count('R9.1', 1, 1)
+    from psa import sqlshape
+    n = sqlshape.shape_rule(ctx, R, 'R9.6', [
+        'placement.objects.research_context:provider_ids_from_uuid',
+        RPM + ':_get_provider_by_uuid', RPM + ':_has_child_providers'])
+    R.count('R9.6', n, 3)
